@@ -13,6 +13,7 @@ import (
 	"path/filepath"
 	"runtime"
 	"strings"
+	"syscall"
 	"time"
 
 	"github.com/safing/portbase/database/iterator"
@@ -200,8 +201,9 @@ func (fst *FSTree) Query(q *query.Query, local, internal bool) (*iterator.Iterat
 	switch {
 	case err == nil && fileInfo.IsDir():
 		// Walk the directory.
-	case err == nil, errors.Is(err, fs.ErrNotExist):
-		// There is no such directory, so there are no records with this prefix.
+	case err == nil, errors.Is(err, fs.ErrNotExist), errors.Is(err, syscall.ENOTDIR):
+		// There is no such directory (or a record is stored where a parent
+		// directory would be), so there are no records with this prefix.
 		queryIter.Finish(nil)
 		return queryIter, nil
 	default: // err != nil
